@@ -85,7 +85,7 @@ def run(rep):
                     db['ctx'] = ctx
                 ss = st_full if lname in ('mem-1batch', 'parquet-rg1') or not quick else st_full[::2]
                 ss = [dict(s, want_plan=(i % 25 == 0)) for i, s in enumerate(ss)]
-                ljs = [dict(x, strict=False) for x in lj] if (lname == 'spill' or (lname.startswith('parquet') and not rows)) else lj  # empty Parquet table under a join: C04's subject  # the join spill path may refuse outer joins explicitly
+                ljs = [dict(x, strict=False) for x in lj] if lname == 'spill' else lj  # the join spill path may refuse outer joins explicitly
                 units.append({'db': db, 'stmts': ss + (ljs if lname != 'mem-6batches' else []), 'layout': lname})
     # high-cardinality family: > 65,536 groups opens the parallel raw-key merge paths (row gates are reached with real rows, no hook)
     ngroups = 70000     # ~105,000 rows: above the 100,000-row gate of the morsel-parallel hash aggregation and the 65,536 raw-group limits
